@@ -118,7 +118,9 @@ func (c *Cluster) appendBatches(p *Partition, batches []rc.Batch, reqIdx int) {
 		} else if n > 0 {
 			nb.BaseOffset = base + n - 1
 		}
-		p.Batches = append(p.Batches, &StoredBatch{Batch: nb, ReqIdx: reqIdx})
+		sb := &StoredBatch{Batch: nb, ReqIdx: reqIdx}
+		p.Batches = append(p.Batches, sb)
+		p.AllBatches = append(p.AllBatches, sb)
 		p.LEO += n
 	}
 	ws := p.waiters
@@ -128,12 +130,14 @@ func (c *Cluster) appendBatches(p *Partition, batches []rc.Batch, reqIdx int) {
 	}
 }
 
-// AppendRaw appends a prepared physical batch (log layout generator). The
-// batch must carry absolute offsets >= LEO.
-func (c *Cluster) AppendRaw(p *Partition, b rc.Batch) {
+// AppendPhysical appends a prepared physical batch (log layout generator)
+// that covers `span` offsets starting at the log end (records may be missing:
+// compaction).
+func (c *Cluster) AppendPhysical(p *Partition, b rc.Batch, span int) {
 	sb := &StoredBatch{Batch: b, ReqIdx: -1}
 	p.Batches = append(p.Batches, sb)
-	p.LEO = sb.LastOffset() + 1
+	p.AllBatches = append(p.AllBatches, sb)
+	p.LEO += int64(span)
 	ws := p.waiters
 	p.waiters = nil
 	for _, w := range ws {
@@ -172,10 +176,14 @@ func (sb *StoredBatch) encodeFor(fetchVersion int16) []byte {
 				b.Codec = 1
 			}
 		}
-		if magic == 0 {
+		if magic < 2 {
+			// down-conversion drops headers (and timestamps for magic 0)
 			rs := append([]rc.Record(nil), b.Records...)
 			for i := range rs {
-				rs[i].Timestamp = -1
+				rs[i].Headers = nil
+				if magic == 0 {
+					rs[i].Timestamp = -1
+				}
 			}
 			b.Records = rs
 		}
